@@ -168,6 +168,64 @@ def h_fault_reading(fault: int, first_use: bool, nv: int, x: int) -> bool:
     return _check_after(p, r, committed, []) and MON["bad"] == 0
 
 
+def h_failed_then_others(kind: int, nother: int, first_use: bool, bufsel: int, nfail: int) -> bool:
+    """
+    A failing writing session on a long-lived handle, then 0-3 records written through a second handle, then the first handle again:
+    its sessions list exactly the records of completed sessions (its own and the other handle's) and read each of them
+    pre: 0 <= kind <= 2 and 0 <= nother <= 3 and 0 <= bufsel <= 1 and 1 <= nfail <= 2
+    post: _
+    """
+    p = new_path()
+    a = Collection(p, UkvCollectionBackend, _enc, None, readonly=False, bufsize=(-1 if bufsel == 0 else 150))
+    done = []
+    if not first_use:
+        with a.writing():
+            a["a0"] = b"v0"
+        done.append(("a0", b"v0"))
+    try:
+        with a.writing():
+            for i in range(nfail):
+                if kind == 0:
+                    a["K" * 256 + str(i)] = b"big"            # key too long for the record header: the write fails
+                elif kind == 1:
+                    a["e%d" % i] = b"ok"
+                    a["f%d" % i] = b"BOOM"                    # the value encoder fails after a put was queued
+                else:
+                    a["d%d" % i] = b"one"
+                    a["d%d" % i] = b"two"                     # duplicate key: refused when flushed
+        return True                                       # the session did not fail: nothing to check here
+    except Exception:                                     # (CrossHair's own control-flow exceptions are BaseException and pass through)
+        pass
+    b = Collection(p, UkvCollectionBackend, readonly=False)
+    with b.reading():
+        survivors = [(k, b[k]) for k in list(b.keys()) if not any(k == x for x, _ in done)]     # records of the failed session that did reach the file, whole
+    for k, v in survivors:
+        if not ((kind == 1 and v == b"ok") or (kind == 2 and v == b"one")):
+            return False
+    done += survivors
+    for i in range(nother):
+        with b.writing():
+            b["o%d" % i] = b"w"
+        done.append(("o%d" % i, b"w"))
+    with a.reading():
+        if not same_elems(list(a.keys()), [k for k, _ in done]):
+            return False
+        for k, v in done:
+            if a[k] != v:
+                return False
+    with a.writing():
+        a["z"] = b"zz"
+    done.append(("z", b"zz"))
+    c = Collection(p, UkvCollectionBackend, readonly=True)
+    with c.reading():
+        if not same_elems(list(c.keys()), [k for k, _ in done]):
+            return False
+    with a.reading():
+        if not same_elems(list(a.keys()), [k for k, _ in done]):
+            return False
+    return lock_state(p) == (0, 0)
+
+
 def h_sessions_exclusive(s1: int, s2: int, s3: int) -> bool:
     """
     Session-granularity schedules over two handles: a session that begins while another handle's write session is open
@@ -361,7 +419,7 @@ def run(rep, tier):
     rep.assumptions = ["RWLock model = per-path reader/writer counters, acquire on a busy lock returns False (fasteners' timeout behaviour)",
                        "an injected I/O fault raises OSError from stream.write/close or Path.open"]
     specs = [{"fn": "h_fault_writing", "timeout": 300, "split": f} for f in range(len(FAULTS))]
-    specs += [{"fn": "h_fault_reading", "timeout": 300}, {"fn": "h_lock_identity", "timeout": 300}]
+    specs += [{"fn": "h_fault_reading", "timeout": 300}, {"fn": "h_lock_identity", "timeout": 300}, {"fn": "h_failed_then_others", "timeout": 300}]
     specs += [{"fn": "h_sessions_exclusive", "timeout": 300, "split": s} for s in range(8)]
     xh.run_obligations(rep, "harness.C04", specs)
     xh.known_witness(rep, "harness.C04")
